@@ -187,11 +187,10 @@ def repetition_bounded(ctx):
         if err is not None:
             bad.append(f"raised {type(err).__name__}: {err}")
         return bool(bad), "; ".join(bad) or "as required"
-    ctx.witness("reach-3-repetitions", I, z3.And(h.requests[2][0], z3.Not(exc)) if len(h.requests) > 2 else FALSE, vars=vars_,
-                validate=lambda v: not replay(v)[0])
     ctx.prove("no-exception", I, exc, vars=vars_, replay=replay)
     # count: the k-th DENM is handed over iff k*i < T  (=> ceil(T/i) messages), each exactly k*i ms after the first
     bad_cnt = [c != (k * i < T) for k, (c, r, ms) in enumerate(h.requests)]
+    allbad = []
     ctx.prove("count-is-ceil-T-over-i", I, z3.Or(*bad_cnt) if bad_cnt else TRUE, vars=vars_, replay=replay,
               desc="DENM number k (k = 0,1,..) is handed to BTP iff k*interval < duration, i.e. ceil(T/i) messages, the first at once")
     bad_t = [z3.And(c, ms != z3.ToReal(k * i)) for k, (c, r, ms) in enumerate(h.requests)]
@@ -240,6 +239,9 @@ def repetition_bounded(ctx):
         rt_bad.append(z3.And(c, z3.Not(z3.And(val_cmp(I, ast.LtE, ref, its), val_cmp(I, ast.Gt, ref, its - 1)))))
     ctx.prove("reference-time-is-its-time", I, z3.Or(*rt_bad) if rt_bad else TRUE, vars=vars_,
               replay=lambda v: (True, "referenceTime is not floor of the ITS time of the clock reading"))
+    allbad = bad_cnt + bad_t + bad_req + bad_msg + same + mono
+    ctx.witness("reach-3-repetitions", I, z3.And(h.requests[2][0], z3.Not(exc)) if len(h.requests) > 2 else FALSE, vars=vars_,
+                validate=lambda v: not replay(v)[0], good=z3.Not(z3.Or(*allbad)))
     ctx.bound(f"interval 100..10000 ms, duration 0..60000 ms with duration <= {K}*interval (unwinding assertion proves the {K + 1}-fold unrolling suffices); "
               "event position over the full signed range; station id 32 bits; real-valued non-decreasing clock")
     ctx.stub("time.sleep advances a virtual clock by its argument; TimeService.time arbitrary non-decreasing; DENM coder returns fresh symbolic octets; BTP router records requests")
@@ -253,7 +255,11 @@ def repetition_inductive(ctx):
     I = h.I
     req, inf = h.request("ev", 600)
     i, T = inf["i"], inf["T"]
-    loop = find_node(DENMTransmissionManagement.trigger_denm_messages, ast.While)
+    try:
+        loop = find_node(DENMTransmissionManagement.trigger_denm_messages, ast.While)
+    except IndexError:
+        ctx.inconclusive("loop-shape", "trigger_denm_messages no longer contains a while loop: the inductive step cannot be set up (the bounded VC N1-repetition-bounded still applies)")
+        return
     tt = I.int_var("transmission_time", 0, 10 ** 7)
     n = I.int_var("sent_so_far", 0, 10 ** 5)
     I.assumptions.append(tt == n * i)                     # loop invariant
@@ -263,6 +269,9 @@ def repetition_inductive(ctx):
     fbody = function_ast(DENMTransmissionManagement.trigger_denm_messages).body
     I.exec_block(fbody[:fbody.index(loop)], fr, TRUE)          # prologue (locals set up before the loop)
     fr.env["transmission_time"] = tt                            # ... then an arbitrary iteration
+    # other events may have been originated since this event's sequence number was allocated: havoc the service counter
+    other = I.int_var("service_counter_after_other_events", 0, 65535)
+    h.o.fields["sequence_number"] = other
     I.calls.add("flexstack.facilities.decentralized_environmental_notification_service.denm_transmission_management.DENMTransmissionManagement.trigger_denm_messages")
     guard = I.to_bool(I.ev(loop.test, fr, TRUE))
     out = I.exec_block(loop.body, fr, guard)
@@ -280,6 +289,31 @@ def repetition_inductive(ctx):
     ctx.prove("step-sends-exactly-one", I, z3.And(guard, z3.Or(z3.Not(once), exc)), vars=vars_, replay=nope)
     ctx.prove("step-sleeps-one-interval", I, z3.And(guard, h.sleep_ms != z3.ToReal(i)), vars=vars_, replay=nope,
               desc="after handing over a DENM the loop sleeps exactly one interval")
+    n0 = len(I.raises)
+    sn_bad = [z3.And(c, z3.Not(val_eq(I, path_get(I, d, "denm", "management", "actionId", "sequenceNumber", pc=c), h.svc_sn))) for c, d, data in h.encoded]
+    del I.raises[n0:]
+    vars_["service_counter_after_other_events"] = other
+    def replay_sn(vals):
+        # real run of one event with two repetitions; while the event sleeps, another event moves the service counter
+        from unittest import mock
+        from flexstack.facilities.decentralized_environmental_notification_service.denm_coder import DENMCoder
+        coder = DENMCoder()
+        got = []
+        btp = mock.Mock()
+        btp.btp_data_request.side_effect = lambda r: got.append(coder.decode(r.data)["denm"]["management"]["actionId"]["sequenceNumber"])
+        m = DENMTransmissionManagement(btp, coder, VehicleData(station_id=vals["station_id"], station_type=5))
+        m.sequence_number = vals["service_sequence_number"]
+        i = vals["ev_interval"]
+        req = DENRequest(denm_interval=i, time_period=2 * i, detection_time=1, event_position={
+            "latitude": vals["ev_lat"], "longitude": vals["ev_lon"],
+            "positionConfidenceEllipse": {"semiMajorConfidence": 4095, "semiMinorConfidence": 4095, "semiMajorOrientation": 3601},
+            "altitude": {"altitudeValue": 800001, "altitudeConfidence": "unavailable"}}, relevance_distance="lessThan200m",
+            relevance_traffic_direction="upstreamTraffic", rhs_cause_code="emergencyVehicleApproaching95", rhs_subcause_code=1, rhs_event_speed=30, rhs_vehicle_type=0)
+        with mock.patch.object(DTM.time, "sleep", lambda d: setattr(m, "sequence_number", vals["service_counter_after_other_events"])):
+            m.trigger_denm_messages(req)
+        return len(set(got)) != 1, f"service counter {vals['service_sequence_number']} at the start of the event, moved to {vals['service_counter_after_other_events']} by other events during the first sleep: the event's DENMs carry sequence numbers {got}"
+    ctx.prove("step-uses-the-events-own-sequence-number", I, z3.And(guard, z3.Or(*sn_bad)) if sn_bad else TRUE, vars=vars_, replay=replay_sn,
+              desc="a repetition carries the sequence number allocated when the event started, whatever other events did to the service counter meanwhile")
     ctx.prove("step-preserves-invariant", I, z3.And(guard, z3.Or(z3.Not(out), I.num(tt2) != (n + 1) * i)), vars=vars_, replay=nope,
               desc="invariant accumulated time = sent*interval is preserved, so the k-th DENM leaves at k*interval")
     # exit: the number of messages at loop exit is the unique n with (n-1)*i < T <= n*i  (= ceil(T/i))
